@@ -299,7 +299,8 @@ def _execute(prop, scen: Scenario, cfg, rng, recorded, res, hasher, keep_log, ma
         scen.post_elab(tm)
 
     if scen.check_netlist:
-        from amaranth.hdl._ir import build_netlist, CombinationalCycle
+        from amaranth.hdl._ir import build_netlist
+        from amaranth.hdl import CombinationalCycle
 
         try:
             build_netlist(sim._design)
@@ -380,6 +381,7 @@ def run_index(prop, master_seed: int, idx: int, tier: str, *, keep_log=False, wa
     rs = h64(master_seed, prop.ID, idx)
     rng = random.Random(rs)
     salt = rng.getrandbits(32)
+    prop.master_seed = master_seed  # lets a property derive sub-seeds shared between neighbouring runs
     cfg = prop.gen_config(rng, tier, idx)
     res = run_scenario(prop, cfg, salt, rng, None, keep_log=keep_log, wall_budget=wall_budget)
     res["index"] = idx
